@@ -233,3 +233,65 @@ theorem sum_cols_eq_sum_rows (rows : List (List Rat)) (m : Nat) (h : ∀ r ∈ r
     simp [h r (List.mem_cons_self ..)]
 
 end Biom.C05
+
+namespace Biom.C05
+
+/-! ### the CSR walk of `nonzero()` -/
+
+theorem mapE_ok {α β : Type} (f : α → Except Err β) (g : α → β) :
+    ∀ l : List α, (∀ a ∈ l, f a = .ok (g a)) → mapE f l = .ok (l.map g)
+  | [], _ => rfl
+  | a :: l, h => by
+    have ha := h a (by simp)
+    have ih := mapE_ok f g l (fun b hb => h b (by simp [hb]))
+    simp [mapE, ha, ih]
+
+theorem entryAt_cons' (k : Nat) (v : Rat) (ents : List (Nat × Rat)) (j : Nat) :
+    CS.entryAt ((k, v) :: ents) j = if k = j then v else CS.entryAt ents j := by
+  unfold CS.entryAt
+  by_cases h : k = j
+  · simp [h]
+  · simp [h]
+
+theorem entryAt_not_mem' (ents : List (Nat × Rat)) (j : Nat) (h : j ∉ ents.map (·.1)) :
+    CS.entryAt ents j = 0 := by
+  induction ents with
+  | nil => rfl
+  | cons e ents ih =>
+    obtain ⟨k, v⟩ := e
+    simp only [List.map_cons, List.mem_cons, not_or] at h
+    rw [entryAt_cons', if_neg (fun hk => h.1 hk.symm)]
+    exact ih h.2
+
+theorem entryAt_of_mem' (ents : List (Nat × Rat)) (j : Nat) (x : Rat) (hnd : (ents.map (·.1)).Nodup)
+    (h : (j, x) ∈ ents) : CS.entryAt ents j = x := by
+  induction ents with
+  | nil => simp at h
+  | cons e ents ih =>
+    obtain ⟨k, v⟩ := e
+    simp only [List.map_cons, List.nodup_cons] at hnd
+    rw [entryAt_cons']
+    rcases List.mem_cons.mp h with heq | hmem
+    · simp only [Prod.mk.injEq] at heq
+      simp [heq.1, heq.2]
+    · have hj : j ∈ ents.map (·.1) := List.mem_map.mpr ⟨(j, x), hmem, rfl⟩
+      have hne : k ≠ j := fun hk => hnd.1 (hk ▸ hj)
+      rw [if_neg hne]
+      exact ih hnd.2 hmem
+
+theorem slice_idx_in_indices (cs : CS Rat) (i : Nat) (e : Nat × Rat) (he : e ∈ cs.slice i) :
+    e.1 ∈ cs.indices := by
+  unfold CS.slice at he
+  have h1 := (List.of_mem_zip he).1
+  exact List.mem_of_mem_drop (List.mem_of_mem_take h1)
+
+theorem slice_val_in_data (cs : CS Rat) (i : Nat) (e : Nat × Rat) (he : e ∈ cs.slice i) :
+    e.2 ∈ cs.data := by
+  unfold CS.slice at he
+  have h2 := (List.of_mem_zip he).2
+  exact List.mem_of_mem_drop (List.mem_of_mem_take h2)
+
+theorem getE_ok {β : Type} (l : List β) (i : Nat) (h : i < l.length) : getE l i = .ok l[i] := by
+  simp [getE, List.getElem?_eq_getElem h]
+
+end Biom.C05
